@@ -406,7 +406,10 @@ def _verdict(case):
     import vlib
     clib = vlib.build_clib()
     cexe = vlib.build_cdriver(HARNESS, clib)
-    mexe = vlib.build_mdriver()
+    try:
+        mexe = vlib.build_mdriver("C09")     # per-property model drivers
+    except TypeError:
+        mexe = vlib.build_mdriver()
     couts, crashes, _ = vlib.run_driver(cexe, [], [case], timeout=40)
     co = couts[0]
     if co is None:
